@@ -11,4 +11,33 @@ PROPS = {
         "explanation": "Reversal's per-entry switch is re-extracted from reversal.go on every run and the code-map theorem is re-proved over it by kernel evaluation; batch-level theorems are structural.",
         "assumptions": ["File.Create/validation of the reversed file are covered by the oracle (and by C05's theorems), not by the C13 theorems"],
     },
+    "C01": {
+        "props_modules": ["Ach.Props.Layouts", "Ach.Props.C01"],
+        "streams": [("field", 20000, 200000), ("record", 13000, 130000)],
+        "allow_nolayout": False,
+        "level_text": "Proof (record and line level): for every record type the layout extracted from Parse/String on every run is shown to line up (26 per-record obligations, kernel evaluation); for every such layout, parsing the rendering of in-width field values returns them and re-rendering reproduces the text (generic theorems, all values, no bound); any 94-column line read by the Reader is a fixed point of write∘read for stable converter pairs; LF/CRLF/CR/blank-line/unbroken-stream layouts and trailing-blank trimming give the same records for all contents. The file-level composition (record-order grammar, validators) is covered by the oracle search on the real code.",
+        "level_note": "Trusted: Lean kernel; gofacts layout extraction (tied behaviourally by the record correspondence stream: real Parse+String vs model on random and fixture lines, every record type); Go strings/strconv/time.Parse modelled (field stream). Custom XField methods are modelled on the stated domain (no IAT corrected data, non-empty creation date/time, ENR AUTOENROLL effective date) and pinned by body hash. File-level grammar and validators: oracle only.",
+        "assumptions": ["strings are valid UTF-8 (List Char); invalid UTF-8 reaches only C06's fuzzing"],
+    },
+    "C02": {
+        "props_modules": ["Ach.Props.Layouts", "Ach.Props.C02"],
+        "streams": [("record", 13000, 130000)],
+        "level_text": "Proof (record level): every layout the compiler accepts is exactly 94 columns wide (theorem over all extracted facts), and every record whose field values are within their widths - or that was parsed by the Reader from a 94-column line with stable converter pairs - renders to exactly 94 characters. Blocking, record order and control counts of whole files are searched by the oracle on the real writer.",
+        "level_note": "Trusted: as C01. File-level clauses (multiple of ten, filler, record order, counts) are oracle-only in this revision.",
+    },
+    "C03": {
+        "streams": [],
+        "level_text": "Proof: check-digit specification (unique digit making the 3-7-1 sum a multiple of 10, all sums), hash = sum mod 10^10, classification tables (five copies of the credit/debit lists agree, partition the standard codes, agree with CreditOrDebit - regenerated tables, kernel evaluation), and soundness of acceptance: a batch/file accepted by the model of Batch.verify / File.ValidateWith satisfies every clause of the property. The model may over-accept (opaque conjuncts only reject more). Partial for IAT/ADV batches of in-memory files (known finding D6).",
+        "level_note": "Trusted: the hand-written validation model mirrors batch.go/file.go (call sequence facts + oracle); direction needed is implementation-accepts => model-accepts, searched by the oracle's independent recomputation on the real code.",
+    },
+    "C05": {
+        "streams": [("create", 4000, 60000)],
+        "level_text": "Proof (batch level): for the model of Batch.build/upsertOffsets - the removal loop exactly as written, parameterised by the slice expression extracted from the source - the control equals the values recomputed from the entries, an Offset makes debits equal credits through at most one OFFSET entry per direction, and any number of further builds changes nothing (entries, trace and addenda sequence numbers, control). The historical Entries[i+i:] loop is shown to panic / hang on the model. File.Create and SEC wrappers: oracle only.",
+        "level_note": "Trusted: Lean kernel; the create correspondence stream ties the model to the real (*Batch).build through the verif hook (entries, traces, addenda sequences, control compared after 1-3 builds, with and without offsets); gofacts index-site census gives the slice expression.",
+    },
+    "C20": {
+        "streams": [("mask", 12000, 120000)],
+        "level_text": "Proof: maskNumber/maskName modelled on bytes exactly as written; for every string: first two positions masked, output bytes are '*', blank or the input byte, at most four bytes in clear, a value with >= 5 non-blank bytes after position 2 always has one hidden; words of >= 4 runes show only their first two bytes. Facts regenerated from describe/file.go and achcli: protected accessors reach Fprintf only through masked variables under the right flags; -mask wires all three. The complement region (<= 4 characters after >= 2 blanks) is the known finding D20, proved as a counterexample on the model.",
+        "level_note": "Trusted: Lean kernel; the mask correspondence stream (exhaustive strings up to length 5-6 over a 5-symbol alphabet incl. a 2-byte rune, plus random to field width) ties the model to the real functions through the verif hook; tabwriter/fmt not modelled.",
+    },
 }
